@@ -670,6 +670,71 @@ class Gen:
         _NAME_CAP[0] = None
         return " ".join(toks)
 
+    def bitflip_case(self):
+        """D case, theme `bitflip` (round 5): a 64-bit dump whose crash address is unmapped but ONE flipped bit away from a
+        mapped address (or from NULL), with 0..16 registers of the exception context planted within 0..4096(+) bytes of the
+        corrected address, poison patterns in others — check_for_bitflips / calculate_heuristics / confidence (the
+        NEARBY_REGISTER table) run on every such candidate; the crashing instruction's registers get the same treatment."""
+        rng = self.rng
+        cpu = rng.choice(["amd64"] * 6 + ["mips64", "ppc64", "sparc", "arm64", "arm64old"])
+        os_ = rng.choice(["linux", "win", "mac", "android"])
+        maxbit = 48 if cpu == "amd64" else 64
+        base = rng.choice([0x80000, 0x10000000, 0x7f0000001000, 0x2000, 0x3000, 0x100000000, 0x7ffffffff000, 1 << 46])
+        size = rng.choice([8, 0x1000, 0x1000, 0x10000, 0x100000])
+        good = base + rng.below(size)
+        bit = rng.below(maxbit)
+        crash = good ^ (1 << bit)
+        if rng.chance(1, 8):
+            crash = 1 << rng.below(maxbit)          # one bit from NULL
+            good = 0
+        if rng.chance(1, 10):
+            crash = (good ^ (1 << (48 + rng.below(16)))) & U64      # non-canonical on amd64
+        regs_all = {"amd64": ["rax", "rbx", "rcx", "rdx", "rsi", "rdi", "rbp", "r8", "r9", "r10", "r11", "r12", "r13", "r14", "r15", "rsp"],
+                    "mips64": ["s0", "s1", "s2", "s3", "s4", "s5", "s6", "s7", "gp", "fp", "ra", "sp"],
+                    "arm64": ["x19", "x20", "x21", "x22", "x23", "x24", "x25", "x26", "x27", "x28", "fp", "lr", "sp"],
+                    "arm64old": ["x19", "x20", "x21", "x22", "x23", "x24", "x25", "x26", "x27", "x28", "fp", "lr", "sp"],
+                    "ppc64": ["r1", "lr"], "sparc": ["g_r14", "g_r30"]}[cpu]
+        names = list(regs_all)
+        for i in range(len(names) - 1, 0, -1):
+            j = rng.below(i + 1)
+            names[i], names[j] = names[j], names[i]
+        near = rng.choice([0, 1, 2, 3, 4, 5, 5, 6, 7, 8, 12, 16])
+        kv = []
+        for i, n in enumerate(names):
+            if i < near:
+                d = rng.choice([0, 1, 8, 0xfff, 0x1000, rng.below(0x1000)])
+                v = (good + d) if rng.chance(1, 2) else (good - d)
+                if rng.chance(1, 12):
+                    v = good + rng.choice([0x1001, -0x1001])         # just outside the window
+            elif rng.chance(1, 4):
+                v = rng.choice([0xe5, 0xa5, 0xcc, 0x2b, 0x11]) * 0x0101010101010101      # poison / repeated bytes
+            else:
+                v = rng.choice([0, 1, crash, good, rng.below(1 << 47)])
+            kv.append("%s=%d" % (n, v & U64))
+        ipn = CPUS[cpu][1][0]
+        kv.append("%s=%d" % (ipn, 0x400000))
+        regs = ",".join(kv)
+        toks = ["D", "cpu=" + cpu, "os=" + os_, "opt=%d" % rng.choice([0, 1, 2, 3, 5]),
+                "T=1:65536:z64:%s" % regs]
+        if os_ == "win":
+            toks.append("X=1:%d:0:%d:2:%d:%d:%s" % (0xc0000005, 0x400000, rng.below(2) if rng.chance(3, 4) else 8, crash, regs))
+        else:
+            toks.append("X=1:11:0:%d:0:0:0:%s" % (crash, regs))
+        if rng.chance(1, 2) and cpu == "amd64":
+            toks.append("R=4194304:%s" % rng.choice(["488b03", "488b00", "488903", "ff23", "ff30", "488b0418", "c3"]))
+        prot_ok = rng.chance(5, 6)
+        if os_ in ("linux", "android") and rng.chance(2, 3):
+            lines = maps_line(base, base + max(size, 0x1000) - 1, "rw-p" if prot_ok else "---p")
+            if rng.chance(1, 2):
+                lines += maps_line(0x400000, 0x400fff, "r-xp")
+            toks.append("maps=" + hx(lines.encode()))
+        else:
+            toks.append("I=%d:%d:%d" % (base, size, 4 if prot_ok else 1))
+            if rng.chance(1, 2):
+                toks.append("I=%d:%d:%d" % (0x400000, 0x1000, 0x20))
+        self.count("bitflip_near_%s" % ("5plus" if near >= 5 else str(near)))
+        return " ".join(toks)
+
     def file_case(self):
         rng = self.rng
         f = rng.choice(SAMPLES)
@@ -1087,6 +1152,10 @@ class C03(PropBase):
             cases.append(g.dump_case())
         for _ in range(nf):
             cases.append(g.file_case())
+        nb = 700 if tier == "quick" else 10000
+        for _ in range(nb):
+            cases.append(g.bitflip_case())
+        g.dist["D_bitflip"] = nb
         g.dist["D_random"] = nd
         g.dist["F"] = nf
         # interleave so that the expensive cases are spread over the shards
